@@ -67,3 +67,14 @@ Theorem C20_scheduler_backoff_ends_when_stopped : forall c inst fid d s,
   o_w (snd (proc_op c inst (ESched fid) (PBackoff d) s)) = release_role (o_w s) (ESched fid) inst.
 Proof. intros c inst fid d s H. destruct (backoff_cancelled_when_role_lost c inst (ESched fid) d s H) as (A & B & _). split; assumption. Qed.
 Print Assumptions C20_scheduler_backoff_ends_when_stopped.
+
+(* "... passes the configured initial value to the run it creates": from EVERY state (world, fault plan, lease, crash flag) the
+   scheduling process of a foreign ID — started at its role acquisition ([sched_body]) or resumed after its wait
+   ([sched_after_wait]) — records only Stores that are the first write of a run of THAT foreign ID, Initiated, version 1, at the
+   default starting status, holding THE CONFIGURED initial value, whether or not a schedule filter is configured *)
+From WF Require Import proofs.Emits proofs.SchedFacts.
+Theorem C20_created_run_holds_the_configured_value : forall c sc inst s,
+  (exists t, o_trace (snd (sched_body c inst sc s)) = t ++ o_trace s /\ Forall (sched_store c sc) t) /\
+  (exists t, o_trace (snd (sched_after_wait c inst sc s)) = t ++ o_trace s /\ Forall (sched_store c sc) t).
+Proof. intros c sc inst s. split; [apply es_body|apply es_after_wait]. Qed.
+Print Assumptions C20_created_run_holds_the_configured_value.
